@@ -392,6 +392,34 @@ pub fn oracle(c: &ClsCase, obs: &mut Obs) -> Vec<Violation> {
             ));
         }
     }
+    // (ii-c) JSON path: the same message rebuilt from its JSON - with the type spelled "103" and "MT103",
+    // both of which publish_mt accepts - is classified like the parsed one
+    {
+        let x = c.text();
+        if let Ok(m) = (msg_ops(&c.mt).parse_full)(&x) {
+            for spelling in [c.mt.clone(), format!("MT{}", c.mt)] {
+                let mut j = m.json.clone();
+                if let Some(o) = j.as_object_mut() {
+                    o.insert("message_type".into(), Value::String(spelling.clone()));
+                }
+                if let Ok(m2) = (msg_ops(&c.mt).full_from_json)(&j) {
+                    if (m2.reject, m2.ret, m2.cover, m2.stp) != (o.reject, o.ret, o.cover, o.stp) {
+                        let form = if spelling.starts_with("MT") { "MTnnn" } else { "nnn" };
+                        out.push(viol(
+                            format!("C17|MT{}|json-path|{form}", c.mt),
+                            format!(
+                                "rebuilt from JSON with message_type {:?}: (reject, return, cover, stp) = {:?}, parsed from MT text: {:?}; {}",
+                                spelling,
+                                (m2.reject, m2.ret, m2.cover, m2.stp),
+                                (o.reject, o.ret, o.cover, o.stp),
+                                x
+                            ),
+                        ));
+                    }
+                }
+            }
+        }
+    }
     // (iii) plugin method is the one the predicates imply
     let implied = if o.reject {
         "reject"
@@ -417,6 +445,7 @@ use crate::driver::Obs as _ObsAlias;
 pub fn run(ctx: &Ctx) {
     ctx.add_rule("enumerated product for MT103, MT202, MT205: field 72 (absent / neutral / each of 13 code-word atoms incl. look-alikes and lower case at line start, mid-line, second line / pairs of atoms) x tag 108 (12 values, two of them 16 characters long: none, plain, code word upper / lower / mixed case, bare and embedded) x tag 119 (6 values) x MT202 sequence B (absent, 50a+59a, 50a only, 59a only, 52A only); control types without classification; non-trivial = carries at least one code word; distinct by text");
     ctx.exhaustive("the whole product is enumerated");
+    ctx.assume("the four classifications of a message rebuilt from its JSON (message_type spelled nnn or MTnnn, the two spellings publish_mt accepts) equal those of the parsed message");
     ctx.assume("absolute verdict only where the code word is unambiguous (exact /REJT/ or /RETN/ in 72, REJT/RETN in 108 in any letter case - the predicates fold the user reference to upper case, src/swift_message.rs has_reject_codes/has_return_codes -, no look-alike anywhere); consistency across types and plugin method are judged on all inputs");
     let thorough = !ctx.quick();
     let types = ["103", "202", "205"];
